@@ -30,6 +30,8 @@ func genTCP(rng *simkit.Rand, tier string, idx int) *simkit.Case {
 	c.Cfg["upstream_kind"] = int64(rng.Intn(3))   // 0 raw listener, 1 client.Forwarder, 2 agent tcpproxy
 	c.Cfg["downstream_kind"] = int64(rng.Intn(2)) // 0 client.Dialer, 1 forward.Forwarder
 	c.Cfg["yield_den"] = []int64{0, 64, 8, 2}[rng.Intn(4)]
+	c.Cfg["stall_den"] = []int64{0, 0, 200}[rng.Intn(3)] // execution-time fault in a third of the runs
+	c.Cfg["stall_max_us"] = 500
 	c.Cfg["stream_delay_us"] = []int64{0, 100, 1000, 5000}[rng.Intn(4)]
 	c.Cfg["segment"] = []int64{0, 300, 900}[rng.Intn(3)]
 	c.Cfg["window"] = []int64{4 << 10, 64 << 10, 256 << 10}[rng.Intn(3)]
